@@ -31,7 +31,9 @@ VARIABLES chain,     \* Seq of versions, each a Seq of (stripped) operations
 
 vars == <<db, chain, snap, sy, err>>
 
-NoSnap == [some |-> FALSE, ver |-> 0, tasks |-> EmptyDb]
+(* trim: how many of the oldest versions the server has discarded (it may discard  *)
+(* versions at or before its snapshot, docs/src/snapshots.md)                    *)
+NoSnap == [some |-> FALSE, ver |-> 0, tasks |-> EmptyDb, trim |-> 0]
 NoReq  == -1
 Idle   == [pc |-> "idle", tt |-> EmptyDb, tb |-> 0, cur |-> <<>>, orig |-> <<>>,
            pos |-> 1, req |-> NoReq, av |-> FALSE]
@@ -102,7 +104,7 @@ SyncGetSnapshot(r) ==
 SyncPull(r) ==
   /\ sy[r].pc = "pull" /\ MayStep(r)
   /\ LET s == sy[r] IN
-     IF s.tb < Len(chain)
+     IF s.tb < Len(chain) /\ s.tb >= snap.trim      \* the child exists and was not discarded
      THEN LET rb == RebaseVersion(chain[s.tb + 1], s.cur, s.tt, <<>>)
           IN sy' = [sy EXCEPT ![r] = [s EXCEPT !.cur = rb.l, !.tt = rb.t, !.tb = s.tb + 1]]
      ELSE sy' = [sy EXCEPT ![r] = [s EXCEPT !.pc = IF s.cur = <<>> THEN "commit" ELSE "push"]]
@@ -150,7 +152,7 @@ SyncPush(r, urg) ==
 SyncSnapshot(r) ==
   /\ sy[r].pc = "snapshot" /\ MayStep(r)
   /\ snap' = IF ~snap.some \/ snap.ver < sy[r].tb
-             THEN [some |-> TRUE, ver |-> sy[r].tb, tasks |-> sy[r].tt] ELSE snap
+             THEN [some |-> TRUE, ver |-> sy[r].tb, tasks |-> sy[r].tt, trim |-> snap.trim] ELSE snap
   /\ sy' = [sy EXCEPT ![r].pc = "pull"]
   /\ UNCHANGED <<db, chain, err>>
 
@@ -168,6 +170,12 @@ SyncRebuild(r) ==
   /\ RRebuild(r, FALSE)
   /\ sy' = [sy EXCEPT ![r] = Idle]
   /\ UNCHANGED <<chain, snap, err>>
+
+(* the server discards its oldest versions, up to the version of its snapshot *)
+ServerTrim(n) ==
+  /\ snap.some /\ snap.trim < n /\ n <= snap.ver
+  /\ snap' = [snap EXCEPT !.trim = n]
+  /\ UNCHANGED <<db, chain, sy, err>>
 
 -----------------------------------------------------------------------------
 (* Faults (C04).  An abort at any point -- a failed request, a failed or    *)
@@ -188,7 +196,7 @@ PushLostReply(r) ==
 SnapLostReply(r) ==
   /\ Faults /\ sy[r].pc = "snapshot" /\ MayStep(r)
   /\ snap' = IF ~snap.some \/ snap.ver < sy[r].tb
-             THEN [some |-> TRUE, ver |-> sy[r].tb, tasks |-> sy[r].tt] ELSE snap
+             THEN [some |-> TRUE, ver |-> sy[r].tb, tasks |-> sy[r].tt, trim |-> snap.trim] ELSE snap
   /\ sy' = [sy EXCEPT ![r] = Idle]
   /\ UNCHANGED <<db, chain, err>>
 
@@ -263,7 +271,9 @@ Quiescent == AllIdle /\ \A r \in Replicas : db[r].ops = <<>> /\ db[r].base = Len
 Converged == Quiescent => \A r \in Replicas : db[r].tasks = Replay(chain, Len(chain))
 
 (* C02: a correct server never causes an out-of-sync error *)
-NoOutOfSync == \A r \in Replicas : ~err[r]
+NoOutOfSync == \A r \in Replicas : err[r] => db[r].base < snap.trim
+   \* (a replica whose base version the server has discarded cannot be reconciled:
+   \*  docs/src/sync-protocol.md; nobody else ever gets an out-of-sync error)
 
 (* C12: the stored snapshot is the replay of the chain up to its version *)
 SnapshotFaithful == snap.some => snap.tasks = Replay(chain, snap.ver)
